@@ -9,7 +9,7 @@ Driver for C13 (a) registry / revision binding and (b) the file chooser.
   registry <load>* <query>*
       load  = ("m" | "s") name file k rev*k     module / submodule header, loaded from `file`
       query = ("imp" | "inc") name (rev | "~")  import / include, with or without revision-date
-    -> loads=<ok|dup>,… modules=<key:file:fullName>,… subs=… q=<file:fullName|nil>,…
+    -> loads=<ok|dup|badname>,… modules=<key:file:fullName>,… subs=… q=<file:fullName|nil>,…
        (hex fields; bindings sorted by hex key; `-` for an empty list)
   spec.registry <same>   -> the same line computed by Goyang.Spec.Registry from the headers
        (`undef` where revisions are not dates, `*` for a query about which the property is silent)
@@ -89,7 +89,8 @@ def showBindings (r : Registry) (km : KeyMap) : String :=
 
 def runRegistry (ls : List Load) (qs : List Query) : String :=
   let (r, out) := Registry.loadAll (ls.map Load.stmt)
-  let loads := commaJoin (out.map fun o => match o with | none => "ok" | some _ => "dup")
+  let loads := commaJoin (out.map fun o => match o with
+    | none => "ok" | some (.duplicate _ _) => "dup" | some (.badName _ _) => "badname")
   let q := commaJoin <| qs.map fun q =>
     match q with
     | .mk inc _ _ => match r.findModule inc q.stmt with
@@ -109,7 +110,10 @@ def specRegistry (ls : List Load) (qs : List Query) : String :=
     | none => ""
   let full (h : Header) : String := if h.rev = "" then h.name else h.name ++ "@" ++ h.rev
   let showH (h : Header) : String := encStr (fileOf h) ++ ":" ++ encStr (full h)
-  let loads := commaJoin ((outcomes hs).map fun b => if b then "dup" else "ok")
+  let loads := commaJoin ((outcomesG hs).map fun o => match o with
+    | .ok => "ok" | .dup => "dup" | .badName => "badname")
+  -- names are looked up among the headers that can be loaded at all (no `@` in the name)
+  let hs := loadable hs
   let wf := hs.all fun h => h.rev == "" || (Spec.parseDate h.rev.toList).isSome
   let bindings (sub : Bool) : String :=
     let keys := ((hs.filter (·.isSub == sub)).flatMap fun h => [h.name, full h]).eraseDups
